@@ -222,6 +222,7 @@ def c15(ctx):
     flush.close1(ctx)
     flush.close2(ctx)
     flush.close3(ctx)
+    flush.adapter_drop(ctx)
     return ctx.finish(explanation="typestate rule flush-before-drop over every internally created container stream; error-discipline rule over all "
                       "io::Result call sites; close-path completeness. That the bytes after Ok equal the described state is not decided")
 
